@@ -10,6 +10,7 @@ import CffVerif.Sched.LogInv
 import CffVerif.Sched.ReportInv
 import CffVerif.Sched.Progress
 import CffVerif.Sched.Measure
+import CffVerif.Sched.RetInv
 
 namespace Sched
 
@@ -256,6 +257,200 @@ example :
       ∧ s.caller.ret = some [.fail 0] ∧ s.loop.phase = .exited
       ∧ s.ws = [.idle, .posting 3 (.fail 3)] ∧ s.donec.length = 2
       ∧ step c s (.workerPost 1) = none := by
+  decide
+
+
+/-! ### C07 — fail-fast soundness, C08 — ContinueOnError -/
+
+theorem full_run {c : Cfg} (hw : c.wiring = Wiring.std) (hwf : WfCfg c) (acts : List Act) (s : State)
+    (hr : run c (init c) acts = some s) : Reach2 c s ∧ Inv8 c s := by
+  refine run_induct (c := c) (fun s => Reach2 c s ∧ Inv8 c s) ?_ acts _ _ ?_ hr
+  · intro s a s' hp h
+    have hr2 : Reach2 c s' := by
+      have R := hp.1.r
+      exact ⟨⟨inv1_step hw hwf R.i1 h, inv2_step hw hwf R.i1 R.i2 h, inv3_step hw hwf R.i1 R.i2 R.i3 h,
+              inv4_step hw hwf R.i1 R.i4 h, inv5_step hw R.i5 h⟩, inv6_step hw hwf R hp.1.i6 h, inv7_step hw hwf R hp.1.i7 h⟩
+    exact ⟨hr2, inv8_step hw hwf hp.1 hp.2 h⟩
+  · exact ⟨⟨⟨inv1_init c, inv2_init c, inv3_init c, inv4_init c, inv5_init c⟩, inv6_init c, inv7_init c⟩, inv8_init c⟩
+
+theorem eq_of_countP_le_one {p : Ev → Bool} : ∀ {l : List Ev} {a b : Ev}, l.countP p ≤ 1 → a ∈ l → b ∈ l →
+    p a = true → p b = true → a = b := by
+  intro l
+  induction l with
+  | nil => intro a b _ ha; simp at ha
+  | cons x xs ih =>
+    intro a b hc ha hb hpa hpb
+    rw [List.countP_cons] at hc
+    simp only [List.mem_cons] at ha hb
+    rcases ha with rfl | ha <;> rcases hb with rfl | hb
+    · rfl
+    · have := List.countP_pos_iff.mpr ⟨b, hb, hpb⟩; simp only [hpa, if_true] at hc; omega
+    · have := List.countP_pos_iff.mpr ⟨a, ha, hpa⟩; simp only [hpb, if_true] at hc; omega
+    · exact ih (by omega) ha hb hpa hpb
+
+/-- **C07 nil ⇒ complete.** Fail-fast: if `Wait` returned nil, every submitted job ended without
+    error, having been started exactly once (and the context was not cancelled at that instant:
+    `C09_nil_implies_not_cancelled`). -/
+theorem C07_nil_complete (c : Cfg) (hw : c.wiring = Wiring.std) (hwf : WfCfg c) (hc : c.coe = false)
+    (acts : List Act) (s : State) (hr : run c (init c) acts = some s)
+    (hnil : Ev.waitReturned [] ∈ s.log) (j : Nat) (hj : j < s.caller.sent) :
+    Ev.ended j .ok ∈ s.log ∧ s.log.count (Ev.started j) = 1 := by
+  obtain ⟨R, h8⟩ := full_run hw hwf acts s hr
+  have he := h8.nilComplete hc hnil j hj
+  have hst := R.i6.endedStarted j _ he
+  have h1 := R.r.i3.once j
+  have h2 : 0 < s.log.count (Ev.started j) := List.count_pos_iff.mpr hst
+  exact ⟨he, by omega⟩
+
+/-- **C07 error ⇒ real.** Fail-fast: a non-nil error returned by `Wait` is exactly one entry, and
+    it is the error value of a job that actually failed, the exit error of a job that called
+    Goexit, or the context's error after a cancellation — never anything else (no sentinel). -/
+theorem C07_error_real (c : Cfg) (hw : c.wiring = Wiring.std) (hwf : WfCfg c) (hc : c.coe = false)
+    (acts : List Act) (s : State) (hr : run c (init c) acts = some s) (r : List Res)
+    (hret : Ev.waitReturned r ∈ s.log) : r = [] ∨ ∃ x, r = [x] ∧ RealEntry x s.log := by
+  obtain ⟨_, h8⟩ := full_run hw hwf acts s hr
+  have hlen := h8.retFfLen hc r hret
+  match r, hret, hlen with
+  | [], _, _ => exact Or.inl rfl
+  | [x], hret, _ => exact Or.inr ⟨x, rfl, h8.retReal _ hret x (by simp)⟩
+  | _ :: _ :: _, _, hlen => simp at hlen
+
+/-- Transitive dependencies. -/
+inductive Anc (c : Cfg) : Nat → Nat → Prop
+  | direct {j d : Nat} : d ∈ c.depsOf j → Anc c j d
+  | step {j d a : Nat} : d ∈ c.depsOf j → Anc c d a → Anc c j a
+
+/-- **C07/C08 nothing downstream of a failure runs.** If a job started, every transitive
+    dependency ended without error (in both modes). -/
+theorem C07_no_downstream (c : Cfg) (hw : c.wiring = Wiring.std) (hwf : WfCfg c)
+    (acts : List Act) (s : State) (hr : run c (init c) acts = some s) (j a : Nat)
+    (hst : Ev.started j ∈ s.log) (ha : Anc c j a) : Ev.ended a .ok ∈ s.log := by
+  obtain ⟨R, _⟩ := full_run hw hwf acts s hr
+  have direct : ∀ j d, Ev.started j ∈ s.log → d ∈ c.depsOf j → Ev.ended d .ok ∈ s.log := by
+    intro j d hst hd
+    obtain ⟨i, hi⟩ := List.mem_iff_getElem?.mp hst
+    obtain ⟨k, _, hk⟩ := R.r.i3.depsBefore i j hi d hd
+    exact List.mem_of_getElem? hk
+  induction ha with
+  | direct hd => exact direct _ _ hst hd
+  | step hd _ ih => exact ih (R.i6.endedStarted _ _ (direct _ _ hst hd))
+
+/-- **C08 error entries.** ContinueOnError: the accumulated error is, in order, exactly one entry
+    per result the loop saw that was a failure other than the internal sentinel; the sentinel never
+    appears; every entry is a real failure (a job's own error value, a Goexit, or the context's
+    error of a job skipped by cancellation). -/
+theorem C08_error_entries (c : Cfg) (hw : c.wiring = Wiring.std) (hwf : WfCfg c) (hc : c.coe = true)
+    (acts : List Act) (s : State) (hr : run c (init c) acts = some s) :
+    s.loop.err = s.log.filterMap Ev.errEntry ∧ Res.invalid ∉ s.loop.err ∧ Res.ok ∉ s.loop.err ∧
+    ∀ x ∈ s.loop.err, RealEntry x s.log := by
+  obtain ⟨R, _⟩ := full_run hw hwf acts s hr
+  have he := R.i7.errCoe hc
+  refine ⟨he, ?_, ?_, ?_⟩
+  · intro hm; rw [he] at hm; obtain ⟨_, _, _, hni⟩ := mem_filterMap_errEntry hm; exact hni rfl
+  · intro hm; rw [he] at hm; obtain ⟨_, _, hie, _⟩ := mem_filterMap_errEntry hm; simp [Res.isErr] at hie
+  · intro x hx; rw [he] at hx
+    obtain ⟨j, hm, hie, hni⟩ := mem_filterMap_errEntry hx
+    exact realEntry_of_seen R.i6 hm hie hni
+
+/-- **C08 one result per job.** Each job contributes at most one result, and that result is what
+    its single worker decision produced (the body's outcome, a context skip, or an invalid skip). -/
+theorem C08_one_result_per_job (c : Cfg) (hw : c.wiring = Wiring.std) (hwf : WfCfg c)
+    (acts : List Act) (s : State) (hr : run c (init c) acts = some s) (j : Nat) :
+    s.log.countP (Ev.isSeenOf j) ≤ 1 ∧ s.log.countP (Ev.decides j) ≤ 1 ∧ s.log.countP (Ev.isEndedOf j) ≤ 1 ∧
+    ∀ r, Ev.resultSeen j r ∈ s.log → Produced j r s.log := by
+  obtain ⟨R, _⟩ := full_run hw hwf acts s hr
+  exact ⟨R.i6.seenOnce j, R.i6.decOnce j, R.i6.endedOnce j, fun r hm => (R.i6.seenProd j r hm).1⟩
+
+/-- **C08 what `Wait` returns** (both modes): every entry of every error `Wait` ever returned is real. -/
+theorem C08_wait_entries_real (c : Cfg) (hw : c.wiring = Wiring.std) (hwf : WfCfg c)
+    (acts : List Act) (s : State) (hr : run c (init c) acts = some s) (r : List Res)
+    (hret : Ev.waitReturned r ∈ s.log) : ∀ x ∈ r, RealEntry x s.log :=
+  (full_run hw hwf acts s hr).2.retReal r hret
+
+/-- **C08 everything is decided.** ContinueOnError: when the loop has left its `for`, every
+    submitted job has had its result seen (so it ran, or was skipped for a recorded reason). -/
+theorem C08_all_decided_at_exit (c : Cfg) (hw : c.wiring = Wiring.std) (hwf : WfCfg c) (hc : c.coe = true)
+    (acts : List Act) (s : State) (hr : run c (init c) acts = some s) (hp : s.loop.phase ≠ .select)
+    (j : Nat) (hj : j < s.caller.sent) : ∃ r, Ev.resultSeen j r ∈ s.log := by
+  obtain ⟨R, _⟩ := full_run hw hwf acts s hr
+  rcases R.i7.exitReason hp with ⟨hff, _⟩ | ⟨hpend, hnil⟩
+  · simp [hc] at hff
+  · have hlen := R.i7.nilAll hnil
+    have hall : s.loop.jobs.countP Loop.undoneB = 0 := by
+      have := R.r.i4.counts.pend; rw [hpend] at this; exact_mod_cast this.symm
+    have hjdone : (Loop.job s.loop j).done = true := by
+      rw [countP_jobs_range, List.countP_eq_zero] at hall
+      have := hall j (List.mem_range.mpr (by omega))
+      simpa [Loop.undoneB, Loop.job] using this
+    exact R.i6.doneSeen j hjdone
+
+/-- **C08 everything runnable ran.** ContinueOnError, no cancellation: once the loop has left, a
+    submitted job all of whose dependencies ended without error was started (exactly once, by
+    `C01_at_most_once`) — failures elsewhere do not stop it. -/
+theorem C08_runnable_ran (c : Cfg) (hw : c.wiring = Wiring.std) (hwf : WfCfg c) (hc : c.coe = true)
+    (acts : List Act) (s : State) (hr : run c (init c) acts = some s) (hp : s.loop.phase ≠ .select)
+    (j : Nat) (hj : j < s.caller.sent) (hdeps : ∀ d ∈ c.depsOf j, Ev.ended d .ok ∈ s.log)
+    (hnc : Ev.cancelled ∉ s.log) : Ev.started j ∈ s.log := by
+  obtain ⟨R, h8⟩ := full_run hw hwf acts s hr
+  obtain ⟨r, hseen⟩ := C08_all_decided_at_exit c hw hwf hc acts s hr hp j hj
+  rcases (R.i6.seenProd j r hseen).1 with ⟨o, _, he⟩ | ⟨_, hsk⟩ | ⟨_, hsk⟩
+  · exact R.i6.endedStarted j o he
+  · exact absurd (R.i6.skipCtx j hsk) hnc
+  · -- skipped as invalid: some dependency failed — but all dependencies ended ok
+    obtain ⟨d, hd, hf⟩ := h8.skippedInvalid j hsk
+    have hdd := R.r.i2.failedDone d hf
+    obtain ⟨r', hr'⟩ := R.i6.doneSeen d hdd
+    obtain ⟨hprod, _, hfe⟩ := R.i6.seenProd d r' hr'
+    have hie : r'.isErr = true := by rw [← hfe]; exact hf
+    have hok := hdeps d hd
+    rcases hprod with ⟨o, ho, he⟩ | ⟨_, hsk'⟩ | ⟨_, hsk'⟩
+    · have := eq_of_countP_le_one (R.i6.endedOnce d) he hok (by simp [Ev.isEndedOf]) (by simp [Ev.isEndedOf])
+      simp at this; subst this; subst ho; simp [outcomeRes, Res.isErr] at hie
+    · exact absurd (R.i6.skipCtx d hsk') hnc
+    · have hst := R.i6.endedStarted d _ hok
+      have := eq_of_countP_le_one (R.i6.decOnce d) hst hsk' (by simp [Ev.decides]) (by simp [Ev.decides])
+      simp at this
+
+/-- **C08 invalid skip ⇒ failed dependency.** A job is skipped as invalid only if one of the
+    dependencies it names produced a failing result. -/
+theorem C08_invalid_has_failed_dep (c : Cfg) (hw : c.wiring = Wiring.std) (hwf : WfCfg c)
+    (acts : List Act) (s : State) (hr : run c (init c) acts = some s) (j : Nat)
+    (hsk : Ev.skipped j .invalid ∈ s.log) :
+    ∃ d ∈ c.depsOf j, ∃ r, Ev.resultSeen d r ∈ s.log ∧ r.isErr = true := by
+  obtain ⟨R, h8⟩ := full_run hw hwf acts s hr
+  obtain ⟨d, hd, hf⟩ := h8.skippedInvalid j hsk
+  obtain ⟨r, hr'⟩ := R.i6.doneSeen d (R.r.i2.failedDone d hf)
+  exact ⟨d, hd, r, hr', by rw [← (R.i6.seenProd d r hr').2.2]; exact hf⟩
+
+/-- Fail-fast never skips a job as invalid (the `invalid` mechanism is ContinueOnError-only). -/
+theorem C07_no_invalid_in_failfast (c : Cfg) (hw : c.wiring = Wiring.std) (hwf : WfCfg c) (hc : c.coe = false)
+    (acts : List Act) (s : State) (hr : run c (init c) acts = some s) (j : Nat) :
+    Ev.skipped j .invalid ∉ s.log :=
+  (full_run hw hwf acts s hr).2.noInvalidFf hc j
+
+/-- Non-vacuity (C08): ContinueOnError with a failing job 0, its dependent 1 (skipped as invalid)
+    and an independent job 2 that still runs; `Wait` returns exactly `[fail 7]`. -/
+example :
+    let c : Cfg := { N := 1, coe := true, emit := false, deps := [[], [0], []] }
+    ∃ s, run c (init c)
+      [.callerSend, .loopEnq, .callerSend, .loopEnq, .callerSend, .loopEnq, .callerClose, .loopEnqClosed,
+       .loopDispatch 0, .workerDecide 0, .workerEnd 0 (.fail 7) false, .workerPost 0, .loopResult,
+       .loopDispatch 0, .workerDecide 0, .workerEnd 0 .ok false, .workerPost 0, .loopResult,
+       .loopDispatch 0, .workerDecide 0, .workerPost 0, .loopResult,
+       .loopClose, .callerRetFin] = some s
+      ∧ s.caller.ret = some [.fail 7] ∧ Ev.skipped 1 .invalid ∈ s.log ∧ Ev.started 2 ∈ s.log
+      ∧ Ev.started 1 ∉ s.log := by
+  decide
+
+/-- Without the sentinel filter the internal "job invalid" error shows up in the result. -/
+example :
+    let c : Cfg := { N := 1, coe := true, emit := false, deps := [[], [0]],
+                     wiring := { filterSentinel := false } }
+    ∃ s, run c (init c)
+      [.callerSend, .loopEnq, .callerSend, .loopEnq, .callerClose, .loopEnqClosed,
+       .loopDispatch 0, .workerDecide 0, .workerEnd 0 (.fail 7) false, .workerPost 0, .loopResult,
+       .loopDispatch 0, .workerDecide 0, .workerPost 0, .loopResult, .loopClose, .callerRetFin] = some s
+      ∧ s.caller.ret = some [.fail 7, .invalid] := by
   decide
 
 end Sched
